@@ -19,6 +19,78 @@ LEVEL_NOTE = "Not decided: that every generated value validates and round-trips 
 ASSUMPTIONS = ["random.randint(a, b) is inclusive of both bounds (stdlib fact)"]
 
 
+def interval_of(e, fold):
+    """(lo, hi) bounding the value of a numeric expression built from constants, random.random / uniform / randint,
+    + - * / ** and unary minus; None when it cannot be bounded.  Pure interval arithmetic on the syntax tree."""
+    inf = float("inf")
+
+    def mul(a, b):
+        try:
+            return a * b
+        except OverflowError:
+            return inf if (a > 0) == (b > 0) else -inf
+
+    def go(x):
+        if isinstance(x, ast.Constant) and isinstance(x.value, (int, float)) and not isinstance(x.value, bool):
+            return (x.value, x.value)
+        if isinstance(x, ast.UnaryOp) and isinstance(x.op, ast.USub):
+            r = go(x.operand)
+            return None if r is None else (-r[1], -r[0])
+        if isinstance(x, ast.UnaryOp) and isinstance(x.op, ast.UAdd):
+            return go(x.operand)
+        if isinstance(x, ast.Call):
+            fn = norm(x.func)
+            if fn in ("random.random", "random"):
+                return (0.0, 1.0)
+            if fn in ("random.uniform", "uniform", "random.randint", "randint", "random.triangular") and len(x.args) >= 2:
+                a, b = go(x.args[0]), go(x.args[1])
+                if a is None or b is None:
+                    return None
+                return (min(a[0], b[0]), max(a[1], b[1]))
+            if fn in ("float", "int", "abs", "round", "math.floor", "math.ceil") and len(x.args) >= 1:
+                r = go(x.args[0])
+                if r is None:
+                    return None
+                if fn == "abs":
+                    return (0 if r[0] <= 0 <= r[1] else min(abs(r[0]), abs(r[1])), max(abs(r[0]), abs(r[1])))
+                return (r[0] - 1, r[1] + 1) if fn in ("round", "math.floor", "math.ceil", "int") else r
+            return None
+        if isinstance(x, ast.BinOp):
+            a, b = go(x.left), go(x.right)
+            if a is None or b is None:
+                return None
+            if isinstance(x.op, ast.Add):
+                return (a[0] + b[0], a[1] + b[1])
+            if isinstance(x.op, ast.Sub):
+                return (a[0] - b[1], a[1] - b[0])
+            if isinstance(x.op, ast.Mult):
+                c = [mul(p_, q_) for p_ in a for q_ in b]
+                return (min(c), max(c))
+            if isinstance(x.op, ast.Div):
+                if b[0] <= 0 <= b[1]:
+                    return None
+                c = [p_ / q_ for p_ in a for q_ in b]
+                return (min(c), max(c))
+            if isinstance(x.op, ast.Pow):
+                # constant base > 0: monotone in the exponent
+                if a[0] == a[1] and a[0] > 0:
+                    vals = []
+                    for q_ in b:
+                        try:
+                            vals.append(float(a[0]) ** q_)
+                        except OverflowError:
+                            vals.append(inf)
+                    return (min(vals), max(vals))
+                return None
+            return None
+        v = fold(x)
+        if isinstance(v, (int, float)) and not isinstance(v, bool):
+            return (v, v)
+        return None
+
+    return go(e)
+
+
 def run(ctx):
     a = analysis(ctx.program)
     p = a.p
@@ -154,6 +226,32 @@ def run(ctx):
                 ctx.check("C20.R2", inst, ok, g.where(), f"gen_data: {norm(n)[:60]} = [{lo}, {hi}]", why)
     if n_r < 6:
         raise AnalysisError(f"only {n_r} randint draws found on the return paths of gen_data")
+
+    # float / double draws: interval of the returned expression (interval arithmetic on the syntax tree) inside the
+    # finite range of the IEEE type the encoder packs it into
+    FLOAT_MAX = {"float": 3.4028234663852886e38, "double": 1.7976931348623157e308}
+    n_f = 0
+    seen_f = set()
+    for s_ in summaries(cfg, max_paths=5000):
+        if s_.kind != "return" or s_.expr is None:
+            continue
+        bases = lits(s_.facts, RT) & set(FLOAT_MAX)
+        if not bases or lits(s_.facts, LT):
+            continue
+        for bs in sorted(bases):
+            if (bs, s_.text) in seen_f:
+                continue
+            seen_f.add((bs, s_.text))
+            n_f += 1
+            inst = f"gen_data: {bs} value `{s_.text[:70]}`"
+            iv = interval_of(s_.expr, lambda e: p.try_fold(umod, e, None))
+            if iv is None:
+                ctx.unrecognised("C20.R2", inst, g.where(s_.node), "the range of the generated value cannot be bounded by interval arithmetic")
+                continue
+            ok = -FLOAT_MAX[bs] <= iv[0] and iv[1] <= FLOAT_MAX[bs]
+            ctx.check("C20.R2", inst + f" stays within the finite {bs} range", ok, g.where(s_.node), f"gen_data: {bs} drawn from [{iv[0]!r}, {iv[1]!r}]", f"the value can exceed the largest finite {bs} ({FLOAT_MAX[bs]!r}): the encoder's struct.pack raises OverflowError (float) or stores an infinity")
+    if n_f < 2:
+        raise AnalysisError(f"only {n_f} float / double return paths found in gen_data")
 
     ctx.rule("C20.R3", "one value yielded per iteration of range(count); generate_one = next(generate_many(schema, 1))", floor=2)
     gm = p.func("utils:generate_many")
